@@ -3,3 +3,4 @@
 pub mod tracestore;
 pub mod coll;
 pub mod nexus;
+pub mod sched;
